@@ -160,6 +160,30 @@ def gen_e1(rng, cid):
     ch = rng.weighted([('value', 5), ('error', 3), ('stopped', 3)])
     arg = 1 + rng.below(9)
     ncons = 1 if kind == 'ensure_started' else (1 + rng.below(2) if kind == 'split_tuple' else 1 + rng.below(3))
+    if rng.below(3) == 0:
+        # lifetime mode: guarded shared state, the adaptor's handle destroyed up front, every consumer owns its own
+        # sender and either connects it into a self-deleting operation state or discards it unconnected; a touch of
+        # the shared state after its last owner is gone faults, and it must be destroyed exactly once
+        nsend = 1 if kind == 'ensure_started' else (2 if kind == 'split_tuple' else 1 + rng.below(4))
+        acts = [('consume' if rng.below(3) != 0 else 'discard') for _ in range(nsend)]
+        if kind != 'ensure_started' and 'consume' not in acts:
+            acts[rng.below(nsend)] = 'consume'
+        progs = [[f'complete_{ch} {arg}']]
+        for i, a in enumerate(acts):
+            if rng.below(3) == 0:
+                progs[rng.below(len(progs))].append(f'{a} {i}')     # same thread as an earlier op (program order)
+            else:
+                progs.append([f'{a} {i}'])
+        for pr in progs:
+            # within one thread the order of completing and consuming/discarding is random too
+            for j in range(len(pr) - 1, 0, -1):
+                k2 = rng.below(j + 1)
+                pr[j], pr[k2] = pr[k2], pr[j]
+        lines = [f'case {cid} kind={kind} seed={seed} strat={strat} life=1']
+        for t, pr in enumerate(progs):
+            lines.append(f'thread {t}: ' + ' ; '.join(pr) + ' ;')
+        lines.append('endcase')
+        return '\n'.join(lines)
     lines = [f'case {cid} kind={kind} seed={seed} strat={strat}', f'thread 0: complete_{ch} {arg} ;']
     for t in range(ncons):
         lines.append(f'thread {t + 1}: consume {t} ;')
@@ -309,7 +333,7 @@ def main():
                               'impl_history': r['raw'], 'model_verdict': r['verdict'],
                               'rerun_cmd': f'cd {HERE} && ./check {PROP} --replay <this file>'})
             violations.append(f'VIOLATION property={PROP} replay={p}')
-    elif ties or not proof_ok:
+    if not violations and (ties or not proof_ok):
         if not proof_ok:
             p = write_replay(PROP, f'proof-{base_seed}.json',
                              {'property': PROP, 'kind': 'proof', 'problems': audit['problems'], 'build_log': build_log[-3000:],
